@@ -206,6 +206,8 @@ class C19(Check):
                                        "rs": rs, "iters": it, "seed": seed, "refit": True}
                                 yield {"est": "cp", "n": n, "xd": xd, "yd": list(yd), "rank": rank, "reg": group["reg"],
                                        "rs": rs, "iters": it, "seed": seed, "failed_refit": True}
+                                yield {"est": "cp", "n": n, "xd": xd, "yd": list(yd), "rank": rank, "reg": group["reg"],
+                                       "rs": rs, "iters": it, "seed": seed, "tenalg": "einsum"}
         elif est == "tucker":
             for yd in c["tk_yd"]:
                 for ranks in tucker_ranks(len(xd), tier):
@@ -218,6 +220,8 @@ class C19(Check):
                                        "reg": group["reg"], "rs": rs, "iters": it, "seed": seed, "refit": True}
                                 yield {"est": "tucker", "n": n, "xd": xd, "yd": list(yd), "ranks": list(ranks),
                                        "reg": group["reg"], "rs": rs, "iters": it, "seed": seed, "failed_refit": True}
+                                yield {"est": "tucker", "n": n, "xd": xd, "yd": list(yd), "ranks": list(ranks),
+                                       "reg": group["reg"], "rs": rs, "iters": it, "seed": seed, "tenalg": "einsum"}
         else:
             yd, nc = list(group["yd"]), group["nc"]
             base = {"est": "plsr", "n": n, "xd": xd, "yd": yd, "nc": nc, "off": group["off"], "seed": seed}
@@ -242,6 +246,14 @@ class C19(Check):
 
     # ------------------------------------------------------------------ CP / Tucker regressors
     def _run_lowrank(self, case, ctx):
+        if case.get("tenalg"):  # configuration axis: the second tensor-algebra implementation
+            import tensorly as tl
+
+            with tl.tenalg.backend_context(case["tenalg"], local_threadsafe=True):
+                return self._run_lowrank_(case, ctx)
+        return self._run_lowrank_(case, ctx)
+
+    def _run_lowrank_(self, case, ctx):
         from tensorly.regression import CPRegressor, TuckerRegressor
 
         est = case["est"]
